@@ -906,24 +906,20 @@ FormatterToXML::accumDefaultEscape(
             {
                 if(ch < 0x20 )
                 {
-                    if(m_isXML1_1)
+                    // Tab, line feed and carriage return are characters
+                    // in XML 1.0, too.  A reference keeps them from being
+                    // normalized when the document is parsed.  The other
+                    // control characters exist in XML 1.1 only.
+                    if(m_isXML1_1 ||
+                       XalanUnicode::charHTab == ch ||
+                       XalanUnicode::charLF == ch ||
+                       XalanUnicode::charCR == ch)
                     {
                         writeNumberedEntityReference(ch);
                     }
                     else
                     {
                          throwInvalidCharacterException(ch, getMemoryManager());
-                    }
-                }
-                else if( XalanUnicode::charNEL == ch )
-                {
-                    if(m_isXML1_1)
-                    {
-                        writeNumberedEntityReference(ch);
-                    }
-                    else
-                    {
-                        throwInvalidCharacterException(ch, getMemoryManager());
                     }
                 }
                 else
